@@ -1,0 +1,22 @@
+//go:build verif
+
+// Copyright JAMF Software, LLC
+
+package cluster
+
+import "github.com/lni/dragonboat/v4"
+
+// Re-exports for the verification harness (build tag verif). No logic.
+
+const VerifNoLeader = noLeader
+
+func VerifMergeShardInfo(current, update dragonboat.ShardView) dragonboat.ShardView {
+	return mergeShardInfo(current, update)
+}
+
+type VerifShardView struct{ v *shardView }
+
+func VerifNewView() VerifShardView                                { return VerifShardView{newView()} }
+func (v VerifShardView) Update(updates []dragonboat.ShardView)    { v.v.update(updates) }
+func (v VerifShardView) Copy() []dragonboat.ShardView             { return v.v.copy() }
+func (v VerifShardView) ShardInfo(id uint64) dragonboat.ShardView { return v.v.shardInfo(id) }
